@@ -13,14 +13,14 @@ use std::path::Path;
 
 pub const PROP: Prop = Prop { id: "C08", spec, run, replay };
 
-const FORMS: [&str; 8] = ["alone", "after-name", "then-quit", "quit-or-action", "two-actions", "under-not", "alone-mindepth1", "alone-mindepth2"];
+const FORMS: [&str; 10] = ["alone", "after-name", "then-quit", "quit-or-action", "two-actions", "under-not", "alone-mindepth1", "alone-mindepth2", "under-not-word", "under-not-word-group"];
 const ROOTS: [&str; 4] = ["r", "./r", ".", "ABS"];
 
 fn spec(t: Tier) -> Spec {
     Spec {
         id: "C08",
         level: "fault_enumeration",
-        rule: format!("(i) every ordered forest of files and directories with <= {} nodes as r/ x expression forms {:?} x -exec/-execdir x starting points r, ./r, ., absolute (and / with -maxdepth 0): the recorder child logs argv and cwd of every invocation; the concatenation of the appended paths over all invocations must be the reference visit order of the entries on which the action is reached, each exactly once, after the fixed arguments; with -execdir each invocation holds entries of one directory only, each as ./basename, with that directory as cwd; a following labelled -printf fires for every reached entry (action true); every pending batch has run at exit, also after -quit; exit 0. (ii) forced batching through the find binary: directories of {} files with 1-, 100- and 250-byte names under RLIMIT_STACK 256 KiB / 8 MiB / unlimited (several invocations): no invocation is refused by the kernel, the paths arrive once each in order (verified by count + rolling hash per invocation, and with full argv+cwd for the -execdir case), >= 2 invocations observed. (iii) faults: every subset of the invocations (up to {} -execdir invocations, one per directory visit) exiting 1, and a command that cannot be started: all invocations still run, exit status != 0 iff some invocation failed. evaluation = one invocation (i, ii) or one fault placement (iii) checked; -execdir ./tool {{}} + on five directories of which only the 1st, 3rd and 5th hold ./tool: these three get their invocation (./NAME, right directory), every file is true, status non-zero; non-trivial = run with more than one invocation or a fault", t.pick(4, 5), FORMS, t.pick("400 and 3000", "400, 3000 and 40000"), t.pick(5, 7)),
+        rule: format!("(i) every ordered forest of files and directories with <= {} nodes as r/ x expression forms {:?} x -exec/-execdir x starting points r, ./r, ., absolute (and / with -maxdepth 0): the recorder child logs argv and cwd of every invocation; the concatenation of the appended paths over all invocations must be the reference visit order of the entries on which the action is reached, each exactly once, after the fixed arguments; with -execdir each invocation holds entries of one directory only, each as ./basename, with that directory as cwd; a following labelled -printf fires for every reached entry (action true); every pending batch has run at exit, also after -quit; exit 0. (ii) forced batching through the find binary: directories of {} files with 1-, 100- and 250-byte names under RLIMIT_STACK 256 KiB / 8 MiB / unlimited (several invocations): no invocation is refused by the kernel, the paths arrive once each in order (verified by count + rolling hash per invocation, and with full argv+cwd for the -execdir case), >= 2 invocations observed. (iii) faults: every subset of the invocations (up to {} -execdir invocations, one per directory visit) exiting 1, and a command that cannot be started: all invocations still run, exit status != 0 iff some invocation failed. evaluation = one invocation (i, ii) or one fault placement (iii) checked; several starting points with a -quit reached before the last one (three orders, succeeding and failing command): exactly the paths up to the -quit are delivered; -execdir ./tool {{}} + on five directories of which only the 1st, 3rd and 5th hold ./tool: these three get their invocation (./NAME, right directory), every file is true, status non-zero; non-trivial = run with more than one invocation or a fault", t.pick(4, 5), FORMS, t.pick("400 and 3000", "400, 3000 and 40000"), t.pick(5, 7)),
         bound: json!({"max_nodes": t.pick(4, 5), "forms": FORMS, "roots": ["r","./r",".","absolute","/ -maxdepth 0"], "stack_limits": ["256KiB","8MiB","unlimited"]}),
         assumptions: vec!["-sorted pins the visit order; tmpfs; the recorder is a real child process".into(), "for the starting point / only 'ran exactly once with one path, exit 0' is judged".into()],
         shards: 0,
@@ -210,8 +210,14 @@ fn small_case(ctx: &mut Ctx, forest: &[Shape], root: &str, form: &str, execdir: 
             argv.extend(act(&l2, &[]));
             argv.extend(["-printf".to_string(), "T %p\\n".to_string()]);
         }
+        "under-not-word-group" => {
+            argv.extend(["-not".to_string(), "(".to_string()]);
+            argv.extend(act(&l1, &fixed1));
+            argv.push(")".into());
+            argv.extend(["-printf".to_string(), "N %p\\n".to_string()]);
+        }
         _ => {
-            argv.push("!".into());
+            argv.push(if form == "under-not" { "!" } else { "-not" }.into());
             argv.extend(act(&l1, &fixed1));
             argv.extend(["-printf".to_string(), "N %p\\n".to_string()]);
         }
@@ -249,7 +255,7 @@ fn small_case(ctx: &mut Ctx, forest: &[Shape], root: &str, form: &str, execdir: 
         ctx.rep.count("invocations_without_any_path_(not_judged)", 1);
     }
     // truth: T line for every reached entry (N never, since the action is true)
-    let want_out: String = if form == "under-not" { String::new() } else { want.iter().map(|r| format!("T {}\n", r.path)).collect() };
+    let want_out: String = if form.starts_with("under-not") { String::new() } else { want.iter().map(|r| format!("T {}\n", r.path)).collect() };
     if lossy(&got.out) != want_out {
         return Some((format!("C08 action not true for every reached entry [{tag}]"), detail(format!("labelled output {:?}, expected {:?}", lossy(&got.out), want_out))));
     }
@@ -447,6 +453,65 @@ fn two_action_case(ctx: &mut Ctx, execdir: bool, first: &str, second: &str, comm
     }
     if !any_bad && got.code != Ok(0) {
         return Some((format!("C08 non-zero exit status although every invocation succeeded [{tag}]"), detail));
+    }
+    None
+}
+
+/// Several starting points and a -quit reached before the last of them: the paths collected so far are
+/// delivered (in order, nothing from the starting points never reached), with a succeeding command
+/// (status 0) and with a failing one (status non-zero).
+fn multi_root_quit_case(ctx: &mut Ctx, execdir: bool, roots: &[&str], failing: bool) -> Option<(String, String)> {
+    let w = ctx.sbx.join("w");
+    let _ = crate::sandbox::force_remove(&w);
+    for d in ["a", "b", "c"] {
+        std::fs::create_dir_all(w.join(d)).ok()?;
+        std::fs::write(w.join(d).join(format!("f{d}")), b"").ok()?;
+    }
+    std::fs::write(w.join("a/stop"), b"").ok()?;
+    let prim = if execdir { "-execdir" } else { "-exec" };
+    let log = ctx.sbx.join(".mc-vrec.log");
+    let _ = std::fs::remove_file(&log);
+    let mut argv: Vec<String> = roots.iter().map(|r| r.to_string()).collect();
+    argv.extend(["-sorted".to_string(), prim.to_string(), vrec(), log.to_string_lossy().to_string(), "{}".to_string(), "+".to_string(), "-name".to_string(), "stop".to_string(), "-quit".to_string()]);
+    let env = if failing { vec![("VREC_OUTCOMES".to_string(), "1".to_string())] } else { vec![] };
+    let got = run_bin(ctx, &argv, &w, None, env);
+    ctx.rep.evaluations += 1;
+    ctx.rep.nontrivial += 1;
+    // reference: the starting points in order, entries in name order, up to and including a/stop
+    let mut want: Vec<(String, String)> = vec![];
+    'outer: for r in roots {
+        let names: &[&str] = match *r {
+            "a" => &["", "fa", "stop"],
+            "b" => &["", "fb"],
+            _ => &["", "fc"],
+        };
+        for n in names {
+            let path = if n.is_empty() { r.to_string() } else { format!("{r}/{n}") };
+            let (dir, arg) = if !execdir {
+                (w.to_string_lossy().to_string(), path.clone())
+            } else if n.is_empty() {
+                (w.to_string_lossy().to_string(), format!("./{r}"))
+            } else {
+                (w.join(r).to_string_lossy().to_string(), format!("./{n}"))
+            };
+            want.push((dir, arg));
+            if path == "a/stop" {
+                break 'outer;
+            }
+        }
+    }
+    let recs = vreclog::read(&log).unwrap_or_default();
+    let gotv: Vec<(String, String)> = recs.iter().flat_map(|r| r.args.iter().map(|a| (lossy(&r.cwd), lossy(a))).collect::<Vec<_>>()).collect();
+    let tag = format!("{prim}, starting points {}, -quit before the last{}", roots.join(" "), if failing { ", command exits 1" } else { "" });
+    let detail = format!("find {:?}\nstatus {:?} stderr {:?}\ndelivered (cwd, path) {:?}\nexpected {:?}", argv, got.code, lossy(&got.err), gotv, want);
+    if got.panicked() {
+        return Some((format!("C08 panic / crash [{tag}]"), detail));
+    }
+    if gotv != want {
+        return Some((format!("C08 paths collected before -quit are not all delivered, or others are [{tag}]"), detail));
+    }
+    if failing == (got.code == Ok(0)) {
+        return Some((format!("C08 exit status wrong after -quit in an earlier starting point [{tag}]"), detail));
     }
     None
 }
@@ -716,6 +781,20 @@ fn run(ctx: &mut Ctx) {
     if ctx.mine(job) {
         crate::props::c09::start_failure_history(ctx, "C08", "+");
     }
+    // (iv'') several starting points, -quit before the last one
+    for execdir in [false, true] {
+        for roots in [vec!["a", "b", "c"], vec!["b", "a", "c"], vec!["c", "b", "a"], vec!["a"]] {
+            for failing in [false, true] {
+                job += 1;
+                if !ctx.mine(job) {
+                    continue;
+                }
+                if let Some((sig, detail)) = multi_root_quit_case(ctx, execdir, &roots, failing) {
+                    ctx.rep.violation(&sig, detail, json!({"prop":"C08","part":"multi_root_quit","execdir":execdir,"roots":roots,"failing":failing}));
+                }
+            }
+        }
+    }
     // (v) names that are not valid UTF-8 reach the command byte for byte (as ./NAME under -execdir)
     for execdir in [false, true] {
         job += 1;
@@ -771,6 +850,17 @@ fn replay(case: &Value, ctx: &mut Ctx) -> Option<String> {
     if case["start_failure_history"] == true {
         crate::props::c09::start_failure_history(ctx, "C08", "+");
         return ctx.rep.violations.keys().next().cloned();
+    }
+    if case["part"] == "multi_root_quit" {
+        let roots: Vec<String> = case["roots"].as_array()?.iter().map(|v| v.as_str().unwrap_or("").to_string()).collect();
+        let rr: Vec<&str> = roots.iter().map(|s| s.as_str()).collect();
+        return match multi_root_quit_case(ctx, case["execdir"].as_bool()?, &rr, case["failing"].as_bool()?) {
+            Some((sig, detail)) => {
+                ctx.rep.violation(&sig, detail, case.clone());
+                Some(sig)
+            }
+            None => None,
+        };
     }
     if case["part"] == "nonutf8" {
         return match nonutf8_case(ctx, case["execdir"].as_bool()?) {
